@@ -68,8 +68,9 @@ func (a *c15asm) ret(r *ast.ReturnStmt) (string, error) {
 }
 
 // copyLoop recognises
-//   for _, kv := range routerMeta.MetadataMatchCriteria() {
-//       if _, ok := varMeta[kv.MetadataKeyName()]; <cond(ok)> { varMeta[kv.MetadataKeyName()] = kv.MetadataValue() } }
+//
+//	for _, kv := range routerMeta.MetadataMatchCriteria() {
+//	    if _, ok := varMeta[kv.MetadataKeyName()]; <cond(ok)> { varMeta[kv.MetadataKeyName()] = kv.MetadataValue() } }
 func (a *c15asm) copyLoop(rs *ast.RangeStmt) (string, error) {
 	bad := func(why string) (string, error) { return "", fmt.Errorf("range loop: %s", why) }
 	if rs.Tok != token.DEFINE || rs.Key == nil || goKey(rs.Key) != "_" || rs.Value == nil {
